@@ -264,7 +264,10 @@ def wide_data_frame_to_triangle(
             # coerce values types
             for field, vals in values.items():
                 if isinstance(vals, list) and len(vals) > 1:
-                    values[field] = np.array(vals)
+                    # a field the cell does not have is missing in every scenario row
+                    values[field] = (
+                        None if all(val is None for val in vals) else np.array(vals)
+                    )
                 if isinstance(vals, list) and len(vals) == 1:
                     values[field] = vals[0]
             values = tlz.valfilter(lambda val: val is not None, values)
